@@ -3,6 +3,7 @@ import CdsVerif.Gen.Dispatch
 import CdsVerif.Driver.SeqEval
 import CdsVerif.Driver.Replay
 import CdsVerif.Driver.Snapshot
+import CdsVerif.Driver.FCBatch
 import CdsVerif.Algo.Spin.Model
 import CdsVerif.Algo.Treiber.Model
 import CdsVerif.Algo.MSQueue.Model
@@ -11,6 +12,8 @@ import CdsVerif.Algo.Vyukov.Model
 import CdsVerif.Algo.FreeList.Model
 import CdsVerif.Algo.TaggedFreeList.Model
 import CdsVerif.Algo.ReentrantSpin.Model
+import CdsVerif.Algo.RCU.Model
+import CdsVerif.Algo.Michael.Model
 open CdsVerif.Driver
 
 partial def lcLoop (h : IO.FS.Stream) (st : LcState) : IO Unit := do
@@ -77,6 +80,7 @@ def main (args : List String) : IO UInt32 := do
   | ["eval"] => evalLoop stdin; return 0
   | ["seqeval"] => seqLoop stdin; return 0
   | ["snapshot"] => snapLoop stdin; return 0
+  | ["fcbatch"] => fcBatchLoop stdin; return 0
   | ["replay", "msqueue"] =>
     replayLoop stdin CdsVerif.Algo.MSQueue.model (fun _ => CdsVerif.Algo.MSQueue.init)
       (fun loc => loc == "head" || loc == "tail" || (loc.startsWith "n" && !(loc.any (· == '+')))) (fun _ => true) none
@@ -105,6 +109,18 @@ def main (args : List String) : IO UInt32 := do
   | ["replay", "reentrant"] =>
     replayLoop stdin CdsVerif.Algo.ReentrantSpin.model (fun _ => CdsVerif.Algo.ReentrantSpin.init)
       (fun loc => loc.startsWith "L") (fun _ => true) none
+    return 0
+  | ["replay", "michael"] =>
+    -- harness variant `imichael_hp_named` of the `list` client: only `head` and `n<digits>` are model locations
+    replayLoop stdin CdsVerif.Algo.Michael.model (fun _ => CdsVerif.Algo.Michael.init)
+      (fun loc => loc == "head" || (loc.startsWith "n" && loc.length > 1 && (loc.drop 1).all Char.isDigit)) (fun _ => true) none
+    return 0
+  | ["replay", "rcu"] =>
+    -- initial state from the header words `flavour=gpi|gpb nthreads=<n> cap=<threshold> bufcap=<capacity()>`;
+    -- the trace is translated into the machine's vocabulary by tools/rcu_pre.py
+    replayLoop stdin CdsVerif.Algo.RCU.model (fun cfg => CdsVerif.Algo.RCU.initCfg cfg)
+      (fun loc => loc == "gctl" || loc == "lock" || loc == "epoch" || loc == "buf" || loc == "buf.size" || loc == "obj"
+        || (loc.startsWith "ctl" && loc.length > 3 && (loc.drop 3).all Char.isDigit)) (fun _ => true) none
     return 0
   | ["replay", "ring"] =>
     -- initial state from the header words `cap=<capacity()>` and (optional) `rot=<warm-up rotations>`
